@@ -70,7 +70,11 @@ CHECKS["C05"] = dict(
     text="TLC enumerates every script within a per-configuration budget (operations per hook, triggers, update-emitted records) over "
          "1/5/60-minute grids and minutely+hourly market mixes and checks BarsInOrder, PhaseOrder, Stamp, NotifyOnce, RowPerBar; every "
          "exported script plus seeded random scripts and a real UniLpMarket mix is run by the real Actuator and its trace must be "
-         "accepted by Trace_BarLoop (each event takeable as the next spec action); corrupted traces must be rejected")
+         "accepted by Trace_BarLoop (each event takeable as the next spec action); operations issued inside notify() are part of the "
+         "scripts; the real markets of every type (Uniswap, Aave, Squeeth + pool, Deribit, GMX v1/v2, a minutely market next to an option "
+         "book with more rows than minutes, the option market alone under minutely prices) run under the same recorder on 1-minute and "
+         "resampled grids; a trace rejected by a clause beyond the statement is re-evaluated as a whole by Trace_BarLoopCore so that a "
+         "violation of the statement is not hidden; corrupted traces must be rejected")
 
 CHECKS["C06"] = dict(
     technique="TLA+ spec TickMath.tla (protocol algorithm over exact naturals, floor relation, closed-form bracket, price and "
@@ -112,13 +116,18 @@ CHECKS["C08"] = dict(technique=UNI_TECH, design="3/C08",
          "range, never above the single-position share and equal to volume x fee rate x path fraction x own/(pool+own) for a single "
          "position, with the path starting at the previous bar's close whatever was written in the bar (DEV switches for the two "
          "deviations); every behaviour (all (previous close, close) pairs over ticks on, next to and far from the range bounds, pool "
-         "liquidity 0 / L / 1000L, unrelated writes and swaps in the same bar, integer and float tick columns) is run through "
-         "the real Actuator and the per-bar pending deltas are compared with the spec")
+         "liquidity 0 / L / 1000L, unrelated writes and swaps in the same bar, positions lent out and returned, integer and float tick "
+         "columns) is run through the real Actuator - one in five on a resampled 5-minute grid, each bar supplied as five 1-minute rows, so "
+         "that the aggregation rules of the data layer are in the loop - and the per-bar pending deltas are compared with the spec")
 CHECKS["C09"] = dict(technique=UNI_TECH, design="3/C09",
     text="MC_UniLp steps a token0-is-quote pool and its mirror (ticks negated, ranges mirrored, volumes swapped) with the same "
          "base/quote events and TLC checks outcome, wallet, liquidity, pending fees and net value agree to 1e-12; each behaviour is "
          "executed on two real UniLpMarket instances; each must follow its own spec state and the two real runs must agree with "
-         "each other in base/quote terms (fee paths with an endpoint exactly on a range bound are excluded: half-open range test)")
+         "each other in base/quote terms (fee paths with an endpoint exactly on a range bound are excluded: half-open range test); the "
+         "helpers that are not operations of UniLp.tla (price_to_tick, add_liquidity by price, add_liquidity_by_value in every swap "
+         "branch, even_rebalance, swap, estimate_amount / estimate_liquidity, remove_all_liquidity) are instantiated from the TLC-enumerated "
+         "case lattice of UniMirror.tla (price region x range shape x wallet composition x half-way ticks) on both orientations and the "
+         "result pairs are validated by TLC against UniMirror!MirrorOK")
 CHECKS["C20"] = dict(
     technique="TLA+ spec Metrics.tla (drawdown three ways, returns, relational annualisation and volatility with certified "
               "enclosures over exact rationals); TLC enumerates series/benchmark cases as behaviours (MC_Metrics, 8 invariants, DEV "
@@ -138,12 +147,14 @@ CHECKS["C14"] = dict(
     text="TLC explores vault operation sequences with amounts computed at each state's limits (exact mint/withdraw limit, +-1e-6, the "
          "0.5 ETH line, mints landing exactly on 1.5x at another price) with and without LP collateral and checks accepted-only-if-safe, "
          "safe-stays-safe for accepted and raised calls, exact movement, liquidation iff below 1.5x and its amounts; every edge is replayed "
-         "by direct calls, 10-bar back-tests run through Actuator.run with live TWAP, each get_twap_price validated relationally by TLC")
+         "by direct calls, 10-bar back-tests run through Actuator.run with live TWAP, each get_twap_price validated relationally by TLC - "
+         "on 1-minute bars and on resampled 5- and 60-minute bars, where the window is the span of time SqueethTwap!TwapWindow denotes; "
+         "one LP kind carries uncollected fees")
 
-CROSS_TECH = ("TLA+ specs of every market (UniLp.tla, Aave.tla, Squeeth.tla, Deribit.tla, GmxV1.tla, GmxV2.tla) carry the property's "
+CROSS_TECH = ("TLA+ specs of the wallet (Wallet.tla / MC_Wallet) and of every market (UniLp.tla, Aave.tla, Squeeth.tla, Deribit.tla, GmxV1.tla, GmxV2.tla) carry the property's "
               "clauses as invariants / action properties, model-checked by TLC (BFS + simulation, DEV switches per market); TLC "
               "behaviours replayed into the real markets under a real Broker (and through the real Actuator where bars matter), the "
-              "property's clauses decided on the real objects after every step (harness/cross.py orchestrates the five legs)")
+              "property's clauses decided on the real objects after every step (harness/cross.py orchestrates the legs: wallet, uniswap, aave, squeeth, deribit, gmx)")
 CHECKS["C01"] = dict(technique=CROSS_TECH, design="3/C01",
     text="for each market type TLC explores operation sequences interleaved with bar changes; each behaviour is replayed into the real "
          "market under a real Broker and after every step Broker.get_account_status (net value, wallet value, each market's net value) "
